@@ -215,6 +215,9 @@ def _mutseq_check(prop, tier, judge_name):
                               'pipeline-schema-differs', 'opt-sig-differs', 'pipeline-sig-differs',
                               'opt-rejected', 'pipeline-rejected') for c, _ in fails):
                     continue        # rows are only compared when the schemas agree
+                if clause in ('OptSameSig', 'TwoPassSameSig') and any(
+                        c in ('opt-rejected', 'pipeline-rejected') for c, _ in fails):
+                    continue        # no signature to compare: the run was refused (a violation already)
                 if clause not in seen and obs.get('ref', {}).get('ok'):
                     report.spec_drift('Optimizer.tla predicts %s for %s but the code satisfies it'
                                       % (clause, label))
